@@ -39,6 +39,10 @@ def jobs(tier, seed):
     js += batches("orders", 36, 6, gen="chain", gseed=0, p_fail=0.0, max_orders=120, max_completions=7, name="chains-with-recurring-values")
     js += batches("orders", 1024, 64, gen="shape", shape_literal=True, gseed=0, p_fail=0.0, max_orders=120, max_completions=6,
                   name="shapes-4-literal-publishes")
+    # multi-entry cycles (a task in a cycle reached from 2-3 parallel branches): every completion order, so passes one after
+    # the other (lawful, fully checked) occur beside overlapping ones (finding F20, tagged by its cause)
+    js += batches("orders", 32, 4, gen="mcycle", gseed=0, p_fail=0.0, max_orders=scale(tier, 120, 720), max_completions=scale(tier, 8, 9),
+                  name="multi-entry-cycles")
     js += batches("orders", scale(tier, 160, 8000), scale(tier, 16, 100), gen="shape", shape_n=5, shape_sample=True, gseed=seed + 7,
                   p_fail=0.0, max_orders=scale(tier, 60, 240), max_completions=6, name="shapes-5-sampled")
     return js
